@@ -18,7 +18,8 @@ EXTENDS Naturals, Integers, Sequences, FiniteSets, TLC
 
 CONSTANTS MaxCalls,     \* bound on the number of API calls per program
           Finite,       \* Finite[s]: stream s stops by itself (finite frame count)
-          SameStore     \* configurations in which both streams use the same storage device are offered to the client
+          SameStore,    \* configurations in which both streams use the same storage device are offered to the client
+          BadDev        \* configurations that name a device which cannot be opened are offered to the client
 Streams == {0, 1}
 Devs == {0, 1}
 AWAIT == 1
@@ -27,6 +28,9 @@ RUNNING == 3
 \* device assignments a configure call may ask for: <<cam0, sto0, cam1, sto1>>, -1 = stream not configured
 Cfgs == {<<0, 0, -1, -1>>, <<0, 0, 1, 1>>, <<1, 1, -1, -1>>, <<-1, -1, 0, 0>>, <<0, 1, 1, 0>>, <<1, 0, -1, -1>>, <<-1, -1, -1, -1>>}
         \cup (IF SameStore THEN {<<0, 0, 1, 0>>} ELSE {})
+        \cup (IF BadDev THEN {<<2, 0, -1, -1>>, <<0, 2, -1, -1>>} ELSE {})
+\* BadDev: camera 2 / storage 2 are enumerated but cannot be opened. The stream is then not configured (acquire_configure
+\* still answers Ok), the device it had is closed, and the other device of the stream is configured all the same.
 \* SameStore: both streams may be pointed at storage device 0. A storage device has one writer (as the raw writer's file lock):
 \* the second instance's start is refused by the driver, acquire_start fails and winds down what it had started (finding F11).
 
@@ -101,12 +105,15 @@ CfgCamClose == /\ pc = "cfg_cam_close" /\ cur \in Streams /\ Required(want, cur)
                   ELSE /\ ev' = NoEv /\ NoDev /\ UNCHANGED <<cam, camDrv>>
                /\ Goto("cfg_cam_open") /\ UNCHANGED <<rstate, valid, sto, camSt, stoSt, stoDrv, alive, stopReq, arg, cur, ncalls, want>>
 CfgCamOpen == /\ pc = "cfg_cam_open"
-              /\ IF cam[cur] = -1
+              /\ IF cam[cur] = -1 /\ want[2*cur+1] = 2
+                 THEN /\ ev' = E("DevOpenFail", 0, 2) /\ NoDev /\ UNCHANGED <<cam, camSt>>      \* camera_open returns NULL
+                 ELSE IF cam[cur] = -1
                  THEN /\ ev' = E("DevOpen", 0, want[2*cur+1]) /\ Open("cam", cur)
                       /\ cam' = [cam EXCEPT ![cur] = want[2*cur+1]] /\ camSt' = [camSt EXCEPT ![cur] = ARMED]
                  ELSE /\ ev' = NoEv /\ NoDev /\ UNCHANGED cam
                       /\ camSt' = [camSt EXCEPT ![cur] = IF camSt[cur] = RUNNING THEN RUNNING ELSE ARMED]   \* camera_set
-              /\ Goto("cfg_sto_close") /\ UNCHANGED <<rstate, valid, sto, stoSt, camDrv, stoDrv, alive, stopReq, arg, cur, ncalls, want>>
+              /\ arg' = (IF cam[cur] = -1 /\ want[2*cur+1] = 2 THEN [arg EXCEPT ![cur + 1] = 2] ELSE arg)   \* 2 = this stream failed
+              /\ Goto("cfg_sto_close") /\ UNCHANGED <<rstate, valid, sto, stoSt, camDrv, stoDrv, alive, stopReq, cur, ncalls, want>>
 CfgStoClose == /\ pc = "cfg_sto_close"
                /\ IF sto[cur] # -1 /\ sto[cur] # want[2*cur+2]
                   THEN \* storage_close stops a running device first (one event per step: stop, then close)
@@ -118,12 +125,14 @@ CfgStoClose == /\ pc = "cfg_sto_close"
                   ELSE /\ ev' = NoEv /\ NoDev /\ Goto("cfg_sto_open") /\ UNCHANGED <<sto, stoDrv>>
                /\ UNCHANGED <<rstate, valid, cam, camSt, stoSt, camDrv, alive, stopReq, arg, cur, ncalls, want>>
 CfgStoOpen == /\ pc = "cfg_sto_open"
-              /\ IF sto[cur] = -1
+              /\ IF sto[cur] = -1 /\ want[2*cur+2] = 2
+                 THEN /\ ev' = E("DevOpenFail", 1, 2) /\ NoDev /\ UNCHANGED <<sto, stoSt>>      \* storage_open returns NULL
+                 ELSE IF sto[cur] = -1
                  THEN /\ ev' = E("DevOpen", 1, want[2*cur+2]) /\ Open("sto", cur)
                       /\ sto' = [sto EXCEPT ![cur] = want[2*cur+2]] /\ stoSt' = [stoSt EXCEPT ![cur] = ARMED]
                  ELSE /\ ev' = NoEv /\ NoDev /\ UNCHANGED sto
                       /\ stoSt' = [stoSt EXCEPT ![cur] = IF stoSt[cur] = RUNNING THEN RUNNING ELSE ARMED]   \* storage_set (repaired)
-              /\ arg' = [arg EXCEPT ![cur + 1] = 1]       \* stream configured
+              /\ arg' = [arg EXCEPT ![cur + 1] = IF arg[cur + 1] = 2 \/ (sto[cur] = -1 /\ want[2*cur+2] = 2) THEN 2 ELSE 1]   \* stream configured, or not
               /\ cur' = cur + 1 /\ Goto("cfg_cam_close")
               /\ UNCHANGED <<rstate, valid, cam, camSt, camDrv, stoDrv, alive, stopReq, ncalls, want>>
 CfgRet == /\ pc = "cfg_cam_close" /\ cur = 2
